@@ -195,6 +195,41 @@ func corrC12(c *corrCtx) {
 			}
 		}
 	}
+	// whites of different luminance (xyY with Y != 1; XYZ whites on the 0-100 scale against 0-1)
+	lums := [][2]float32{{1, 0.9}, {0.5, 2}, {100, 1}, {0.2, 0.2}, {1, 100}}
+	for ai := 0; ai < 11 && ai < len(whites); ai++ {
+		for bi := 0; bi < 11 && bi < len(whites); bi++ {
+			if !c.thorough() && (ai+2*bi)%3 != 0 {
+				continue
+			}
+			A, B := whites[ai], whites[bi]
+			lu := lums[(ai+bi)%len(lums)]
+			wa := ciexyy.Color{X: A[0], Y: A[1], YY: lu[0]}
+			wb := ciexyy.Color{X: B[0], Y: B[1], YY: lu[1]}
+			ca := ciexyz.AdaptBetweenXYYWhitePoints(wa, wb)
+			c.emit("adaptxyy-lum", fmt.Sprintf("adaptxyy %08x %08x %08x %08x %08x %08x", fb(A[0]), fb(A[1]), fb(lu[0]), fb(B[0]), fb(B[1]), fb(lu[1])), m3hex(matrix.Matrix3(ca)))
+			sa, sb := ciexyz.ColorFromXYY(wa), ciexyz.ColorFromXYY(wb)
+			cz := ciexyz.AdaptBetweenXYZWhitePoints(sa, sb)
+			c.emit("adaptxyz-lum", fmt.Sprintf("adaptxyz %08x %08x %08x %08x %08x %08x", fb(sa.X), fb(sa.Y), fb(sa.Z), fb(sb.X), fb(sb.Y), fb(sb.Z)), m3hex(matrix.Matrix3(cz)))
+			if cz != ca {
+				c.direct(fmt.Sprintf("C12/ctor-lum/%s-%s", names[ai], names[bi]), "xyY and XYZ constructors give different adaptations (whites of different luminance)", map[string]interface{}{"A": wa, "B": wb})
+			}
+			got := ca.Apply(sa)
+			scale := math.Max(1, float64(maxf(sb.X, sb.Y, sb.Z)))
+			if dw := math.Max(math.Abs(float64(got.X-sb.X)), math.Max(math.Abs(float64(got.Y-sb.Y)), math.Abs(float64(got.Z-sb.Z)))); dw > 1e-6*scale {
+				c.direct(fmt.Sprintf("C12/white-lum/%s-%s", names[ai], names[bi]), "adaptation between whites of different luminance does not map the source white onto the destination white",
+					map[string]interface{}{"A": wa, "B": wb, "got": []float32{got.X, got.Y, got.Z}, "want": []float32{sb.X, sb.Y, sb.Z}})
+			}
+			ws := [3]float64{float64(sa.X), float64(sa.Y), float64(sa.Z)}
+			wd := [3]float64{float64(sb.X), float64(sb.Y), float64(sb.Z)}
+			sv := mulv3(bradfordRef, ws)
+			dv := mulv3(bradfordRef, wd)
+			ref := mul3(mul3(inv3(bradfordRef), [3][3]float64{{dv[0] / sv[0], 0, 0}, {0, dv[1] / sv[1], 0}, {0, 0, dv[2] / sv[2]}}), bradfordRef)
+			if dr := maxAbsDiff(caTo64(ca), ref); dr > 1e-9*math.Max(1, float64(lu[1]/lu[0])) {
+				c.direct(fmt.Sprintf("C12/ref-lum/%s-%s", names[ai], names[bi]), "adaptation matrix differs from the independent float64 Bradford matrix (whites of different luminance)", map[string]interface{}{"A": wa, "B": wb, "diff": dr})
+			}
+		}
+	}
 	// histories: adaptations asked for again after other pairs (same source, other destination; swapped;
 	// repeated) — the answer may depend on the arguments only
 	nh := 300
@@ -541,6 +576,12 @@ func corrC20(c *corrCtx) {
 		var p [4][2]float32
 		for k := 0; k < 3; k++ {
 			p[k] = [2]float32{float32(0.01 + 0.75*r.f64()), float32(0.01 + 0.85*r.f64())}
+		}
+		if len(tris)%5 == 0 {
+			// a primary on (almost on) the line of purples / the x axis: y between 1e-7 and 1e-3
+			// (ROMM blue has y = 1e-4; the generated matrix has a column that scales like 1/y)
+			k := r.intn(3)
+			p[k] = [2]float32{float32(0.005 + 0.2*r.f64()), float32(math.Pow(10, -7+4*r.f64()))}
 		}
 		x1, y1, x2, y2, x3, y3 := float64(p[0][0]), float64(p[0][1]), float64(p[1][0]), float64(p[1][1]), float64(p[2][0]), float64(p[2][1])
 		area := 0.5 * math.Abs((x2-x1)*(y3-y1)-(x3-x1)*(y2-y1))
